@@ -103,10 +103,26 @@ def make_index(kind, n):
     raise KeyError(kind)
 
 
+COLUMN_KINDS = ["default", "strings", "duplicate", "printsame"]
+
+
+def column_labels(kind, p):
+    """default ints; unsorted strings; repeated labels; distinct labels that print the same (1, "1")."""
+    if kind == "default":
+        return list(range(p))
+    if kind == "strings":
+        return ["zeta", "alpha", "mid", "b2", "a1", "q", "r7"][:p]
+    if kind == "duplicate":
+        return (["flow", "temp", "flow", "level", "temp", "flow", "x"])[:p]
+    if kind == "printsame":
+        return ([1, 2, "1", 3, "2", "3", 4])[:p]
+    raise KeyError(kind)
+
+
 def make_frame(X, index="range0", columns="default", dtype="float64"):
     X = np.asarray(X, dtype=dtype)
     if X.ndim == 1:
         X = X.reshape(-1, 1)
     n, p = X.shape
-    cols = list(range(p)) if columns == "default" else ["zeta", "alpha", "mid", "b2", "a1", "q", "r7"][:p]
+    cols = column_labels(columns, p)
     return pd.DataFrame(X, index=make_index(index, n), columns=cols)
